@@ -170,7 +170,7 @@ P("C07", ["R23", "R24", "R25", "R26", "R12", "R36", "R37", "R38", "R48", "R35", 
   ["token -> field oracle transcribed from the README syntax tables (about "
    "20 entries, sa/rules/tablerules.py)"])
 
-P("C08", ["R24", "R23", "R14", "R26", "R35", "R37", "R38", "R48", "R36", "R09"],
+P("C08", ["R24", "R23", "R14", "R26", "R35", "R37", "R38", "R48", "R36", "R09", "R54"],
   "path enumeration of the default dump format, folded table agreement",
   "R24 each of the 24 strings _get_dump_format can return (4 time shapes x "
   "2 zone shapes x 3 date tails, enumerated over its paths) is an extended "
@@ -326,7 +326,7 @@ P("C16", ["R01", "R02", "R03", "R17", "R21", "R37"],
   ["client code does not write underscore attributes; no "
    "object.__setattr__/ctypes tricks (checked absent in the package)"], [])
 
-P("C17", ["R29", "R13d", "R26", "R23", "R20", "R12", "R44", "R45", "R48", "R41"],
+P("C17", ["R29", "R13d", "R26", "R23", "R20", "R12", "R44", "R45", "R48", "R41", "R54", "R52"],
   "folded directive table vs POSIX meaning, representation abstract "
   "interpretation of strftime",
   "R29 the directive table holds exactly the supported set, each directive "
@@ -355,7 +355,7 @@ P("C18", ["R26", "R12", "R14", "R07", "R41", "R42", "R44"],
   "results for actual system zone configurations (read from time.* at run "
   "time).", [], [])
 
-P("C19", ["R30", "R20", "R32", "R12", "R51"],
+P("C19", ["R30", "R20", "R32", "R12", "R51", "R55"],
   "structural try/handler and option-plumbing checks, call-graph "
   "reachability",
   "R30 all four dispatch calls (for the recurrence generator: its loop) "
